@@ -22,11 +22,12 @@ MANIFEST = {
             'unique set satisfying the declarative definition of C14, that the list is rank-descending and that the '
             'operation is idempotent, with reachability witnesses; it then enumerates every list of 0..3 boxes over a '
             '16-box alphabet and of 4 over an 8-box alphabet (thorough: 0..3 over 30 boxes, 4 over 16; nested, shifted, '
-            'quarter-turn rotated, duplicated, far and invalid-size boxes) x 4 score patterns x score thresholds none / '
+            'quarter-turn rotated, duplicated, far and invalid-size boxes) x 6 score patterns (zero and negative scores included) x score thresholds none / '
             'below / on / inside / above x the nms threshold grid, plus random lists of 6, 12, 24 and 40 boxes by '
             'simulation; each case is replayed into the real nms() in up to 4 input orders and the returned references, '
             'identified by position in the input slice, must form a list the specification admits; nms of its own '
-            'output must return it unchanged.',
+            'output must return it unchanged. Box OBJECTS with a history (vertices generated, then turned / moved / resized / '
+            'cloned: GenObj.tla) are handed to nms() as well: the result is that of the current geometry.',
     'note': 'Trusted: TLC; Lattice.tla geometry (boxes on a half-unit lattice, angles in quarter turns - decided exactly; '
             'arbitrary angles are the business of C08); cases whose cover ratio equals the nms threshold exactly are '
             'skipped (float tie); rank ties are replayed with every list admissible under some tie-break.',
